@@ -37,10 +37,7 @@ global size_of CASChunkSequenceHeader == 48;
 global size_of CASChunkSequenceEntry == 48;
 
 // ---- specification vocabulary -----------------------------------------------------------------------------------------
-// sum of the unpacked lengths of chunks [a, b)
-spec fn sum_unpacked(s: Seq<CASChunkSequenceEntry>, a: int, b: int) -> int decreases b - a {
-    if a >= b { 0 } else { sum_unpacked(s, a, b - 1) + s[b - 1].unpacked_segment_bytes as int }
-}
+//@ include prelude/ims_sum.rs
 proof fn lemma_sum_mono(s: Seq<CASChunkSequenceEntry>, a: int, b: int, c: int)
     requires a <= b <= c,
     ensures sum_unpacked(s, a, c) == sum_unpacked(s, a, b) + sum_unpacked(s, b, c), sum_unpacked(s, a, b) >= 0,
@@ -69,23 +66,7 @@ proof fn lemma_sum_ext(t: Seq<CASChunkSequenceEntry>, u: Seq<CASChunkSequenceEnt
     if n > 0 { lemma_sum_ext(t, u, n - 1); }
 }
 
-// The property statement of C05 as a predicate: "the first n query hashes are stored in xorb X at chunks [a, a+n)" is
-// true of X's recorded chunk list and the byte count is the sum of those chunks' lengths.
-spec fn truthful(x: MDBCASInfo, q: Seq<MerkleHash>, n: int, fse: FileDataSequenceEntry) -> bool {
-    &&& 1 <= n <= q.len()
-    &&& fse.cas_hash == x.metadata.cas_hash
-    &&& fse.chunk_index_end == fse.chunk_index_start + n
-    &&& fse.chunk_index_end <= x.chunks@.len()
-    &&& forall|k: int| 0 <= k < n ==> (#[trigger] x.chunks@[fse.chunk_index_start + k]).chunk_hash == q[k]
-    &&& fse.unpacked_segment_bytes == sum_unpacked(x.chunks@, fse.chunk_index_start as int, fse.chunk_index_end as int)
-}
-
-// a recorded xorb the index can answer about without arithmetic overflow: chunk indices and the byte total fit u32
-// (both are u32 fields of the on-disk header: num_entries, num_bytes_in_cas)
-spec fn cas_fits(x: MDBCASInfo) -> bool {
-    &&& x.chunks@.len() <= u32::MAX
-    &&& sum_unpacked(x.chunks@, 0, x.chunks@.len() as int) <= u32::MAX
-}
+//@ include prelude/ims_vocab.rs
 
 // outline (R7): `chunks.iter().map(|sb| sb.unpacked_segment_bytes).sum()` — iterator chain, not parseable by Verus.
 // The body is that expression; the contract is assumed: u32 `Sum` is the arithmetic sum when it does not overflow
@@ -130,15 +111,7 @@ impl MDBCASInfo {
 }
 
 impl MDBInMemoryShard {
-    // wf: every lookup entry h -> (info, i) points at a chunk of `info` whose recorded hash is h
-    spec fn wf(&self) -> bool {
-        forall|h: MerkleHash| self.chunk_hash_lookup@.contains_key(h) ==> {
-            let e = #[trigger] self.chunk_hash_lookup@[h];
-            &&& (e.1 as int) < e.0.chunks@.len()
-            &&& e.0.chunks@[e.1 as int].chunk_hash == h
-            &&& cas_fits(*e.0)
-        }
-    }
+    spec fn wf(&self) -> bool { ims_wf(self.chunk_hash_lookup@) }
 
     // base case of the invariant: `MDBInMemoryShard::default()` (empty lookup) is wf
     proof fn lemma_wf_empty(&self)
@@ -185,13 +158,7 @@ impl MDBInMemoryShard {
 //@ contract
         requires self.wf(),
         ensures
-            // C05 verbatim: a reported match is a true statement about the recorded chunk list of the xorb it names
-            /*@C05*/ match r {
-                Some((n, fse)) => self.chunk_hash_lookup@.contains_key(query_hashes@[0])
-                    && truthful(*self.chunk_hash_lookup@[query_hashes@[0]].0, query_hashes@, n as int, fse)
-                    && fse.chunk_index_start == self.chunk_hash_lookup@[query_hashes@[0]].1,
-                None => query_hashes@.len() == 0 || !self.chunk_hash_lookup@.contains_key(query_hashes@[0]),
-            },
+            /*@C05*/ ims_query_post(self.chunk_hash_lookup@, query_hashes@, r),
 //@ loop 1
             invariant
                 self.wf(),
